@@ -555,12 +555,8 @@ impl EventParser {
                 self.infer_payload_type(&expr_ref.expr, symbols)
             }
             // Struct construction: User { ... }
-            Expr::Struct(expr_struct) => {
-                if let Some(segment) = expr_struct.path.segments.last() {
-                    return segment.ident.to_string();
-                }
-                "unknown".to_string()
-            }
+            // (or a struct-like enum variant: Status::Failed { .. } is a value of type Status)
+            Expr::Struct(expr_struct) => Self::type_named_by_value_path(&expr_struct.path, true),
             // Variable or path: some_var, module::Type
             Expr::Path(path) => {
                 if let Some(ident) = path.path.get_ident() {
@@ -569,22 +565,24 @@ impl EventParser {
                     if let Some(typ) = symbols.get(&name) {
                         return typ.clone();
                     }
-                    // Fallback: might be a type name used directly (like Status::Active)
+                    // A constant (MAX_RETRIES) does not tell its type
+                    if name.len() > 1 && !name.contains(char::is_lowercase) {
+                        return "unknown".to_string();
+                    }
+                    // Fallback: might be a unit struct used as a value
                     return name;
                 }
-                // For qualified paths, return the last segment
-                if let Some(segment) = path.path.segments.last() {
-                    return segment.ident.to_string();
-                }
-                "unknown".to_string()
+                // Qualified path: an enum variant (Status::Running), a unit struct (models::Ping)
+                // or something whose type the path does not tell (Progress::ZERO)
+                Self::type_named_by_value_path(&path.path, false)
             }
             // Tuple: (a, b, c)
             Expr::Tuple(tuple) => {
                 if tuple.elems.is_empty() {
                     return "()".to_string();
                 }
-                // For now, just mark as tuple
-                "tuple".to_string()
+                // The element types are not inferred
+                "unknown".to_string()
             }
             // Literal values
             Expr::Lit(lit) => match &lit.lit {
@@ -604,11 +602,46 @@ impl EventParser {
                 // Can't easily infer return type without type checker
                 "unknown".to_string()
             }
-            // Function calls
-            Expr::Call(_) => {
-                // Can't easily infer return type without type checker
-                "unknown".to_string()
+            // Function calls: only the constructor of a tuple-like enum variant
+            // (Status::Done(3)) tells its type without a type checker
+            Expr::Call(call) => match call.func.as_ref() {
+                Expr::Path(func) if func.path.segments.len() >= 2 => {
+                    let variant = Self::type_named_by_value_path(&func.path, false);
+                    let last = func.path.segments.last().map(|s| s.ident.to_string());
+                    if last.as_deref() == Some(variant.as_str()) {
+                        // the path names a function or a tuple struct in a module, not a variant
+                        "unknown".to_string()
+                    } else {
+                        variant
+                    }
+                }
+                _ => "unknown".to_string(),
+            },
+            _ => "unknown".to_string(),
+        }
+    }
+}
+
+impl EventParser {
+    /// The type named by the path of a value expression. `Status::Running` and
+    /// `crate::Status::Failed { .. }` are values of the enum `Status`; `models::Ping` (a unit
+    /// struct) and `models::Progress { .. }` are values of the last segment; an associated
+    /// constant or function (`Progress::ZERO`, `Progress::new`) does not tell its type.
+    fn type_named_by_value_path(path: &syn::Path, struct_expression: bool) -> String {
+        let camel_case =
+            |name: &str| name.starts_with(char::is_uppercase) && name.contains(char::is_lowercase);
+        let mut segments = path.segments.iter().rev().map(|s| s.ident.to_string());
+        let last = segments.next().unwrap_or_default();
+        match segments.next() {
+            Some(previous) if previous == "Self" => "unknown".to_string(),
+            Some(previous) if previous.starts_with(char::is_uppercase) => {
+                if struct_expression || camel_case(&last) {
+                    previous
+                } else {
+                    "unknown".to_string()
+                }
             }
+            _ if struct_expression || camel_case(&last) => last,
             _ => "unknown".to_string(),
         }
     }
